@@ -130,16 +130,22 @@ def check_matrix(case, acc):
         ('evaluate_expression, operands in locals', guarded(bs.evaluate_expression, model, None, {'va': a, 'vb': b}, True)),
         ('script "return <expr>"', guarded(bs.execute_script, op_script(op, unary), {'globals': {'va': a, 'vb': b}})),
     ]
+    failed = False
     for how, got in runs:
         acc.evals += 1
         acc.transitions += 1
         acc.traces += 1
+        if failed:
+            continue              # one recorded violation per cell (the first failing path)
+        failed = True
         if got[0] != 'value':
             acc.violation(dict(case, path=how), want_obs, got, f'{how}: the operator raised instead of yielding a value')
         elif obs(got[1], tags) != want_obs:
             acc.violation(dict(case, path=how), want_obs, obs(got[1], tags), f'{how}: result differs from the operator table ({describe(op, a, b, unary)})')
         elif op in ('&&', '||') and isinstance(want, (list, dict)) and got[1] is not want:
             acc.violation(dict(case, path=how), 'the operand itself', 'an equal but different object', f'{how}: {op} did not return one of its operands')
+        else:
+            failed = False
     return (op, rv.rtype(a), rv.rtype(b) if not unary else None, rv.rtype(want))
 
 
